@@ -1,11 +1,88 @@
-"""C15 -- compressed circuit descriptions compile to the identical keys (partial)."""
+"""C15 -- compressed circuit descriptions compile to the identical keys (partial).
+
+(M) capacity: bit-vector translation of the MIR of `Compiler::max_constraints`,
+    `compile_with_composer`/`trim`/`truncate` and `packed_size_limit`: the two routes
+    accept exactly the same capacities, for ALL constraint counts and key lengths.
+(S) identity of keys: the real compressor (`CompressedCircuit::from_composer`, scalar
+    dictionary, MessagePack + deflate), decompressor (`Composer::from_bytes`) and
+    compiler run on circuits whose selector values are SYMBOLIC (and, in a second
+    family, every entry of the built-in scalar dictionary plus neighbours): for all
+    values of those selectors the decompressed gates equal the original gates (wires
+    up to renaming), and `Prover::to_bytes` / `Verifier::to_bytes` of the two routes are
+    the same terms.  The dictionary is also checked to index 0..len exactly once.
+"""
+import json
+import os
+
 import framework as fw
+import smt
 from checks.capacity import Capacity, c15_obligations
+
+FLAGS = ["dictionary_indices_are_a_permutation", "prover_identical", "verifier_identical",
+         "decompressed_gates_identical", "decompressed_public_input_rows_identical",
+         "decompressed_witness_count_identical"]
+
+
+def routes(run):
+    quick = run.tier == "quick"
+    shapes = []
+    # (symbolic selector values, public inputs, custom gates, dictionary entries as selectors, hades dictionary)
+    for k in ([1, 2, 5, 10, 11, 12, 15, 16, 17] if quick else list(range(1, 41))):
+        shapes.append((6 * k, min(k, 3), 0, 0, 1))
+    for pis in ([0, 14, 15, 16] if quick else list(range(0, 34))):
+        shapes.append((6 * max(pis, 1), pis, 0, 0, 1))
+    shapes += [(8, 2, 1, 0, 1), (8, 2, 0, 1, 1), (8, 2, 1, 1, 1), (8, 2, 0, 1, 0), (8, 2, 1, 0, 0)]
+    if not quick:
+        shapes += [(600, 5, 1, 1, 1), (3000, 40, 0, 0, 1)]
+    seen, table = set(), []
+    for shape in shapes:
+        if shape in seen:
+            continue
+        seen.add(shape)
+        args = ["compress_routes"] + [str(x) for x in shape]
+        sb = fw.run_driver(fw.SYM_BIN, args, run.seed)
+        out = sb["outputs"]
+        flags = out["flags"]
+        tag = f"routes/sel{shape[0]}_pi{shape[1]}_custom{shape[2]}_table{shape[3]}_hades{shape[4]}"
+        table.append({"shape": shape, "constraints": out["constraints"], "compressed_bytes": out["compressed_bytes"],
+                      "dictionary": out["dictionary"], "terms": out.get("nodes_in_arena")})
+        extra = [k for k in flags if k not in FLAGS]
+        for f in FLAGS + extra:
+            v = flags.get(f)
+            o = fw.Obligation(f"{tag}/{f}", "identity/term-equality", [f"; symdrv {' '.join(args)}"], [], "unsat", 0)
+            o.result = smt.Result("unsat" if v is True else "sat", {}, 0.0, "", "hash-consed term identity")
+            o.result.script = ""
+            run.obls.append(o)
+            if v is True:
+                continue
+            rb = fw.run_driver(fw.REAL_BIN, args, run.seed)
+            rv = rb["outputs"]["flags"].get(f)
+            d = os.path.join(fw.OUT, "cex")
+            os.makedirs(d, exist_ok=True)
+            path = os.path.join(d, f"C15_{tag}_{f}.json".replace("/", "_"))
+            json.dump({"property": "C15", "driver": args, "seed": run.seed, "flag": f, "symbolic": v, "real": rv,
+                       "all_flags_real": rb["outputs"]["flags"], "detail": rb["outputs"].get("first_gate_difference"),
+                       "replayed": rv is not True}, open(path, "w"), indent=1)
+            if rv is not True:
+                run.violations.append((f"{tag}/{f}", path))
+            else:
+                run.inconclusive.append(f"{tag}/{f}: terms differ but the real build agrees at the seed's values")
+    run.extra["route_shapes"] = table
+    run.validation["points"] += len(table)
+    run.add_functions(["CompressedCircuit::from_composer", "compress::scalar_map", "CompressedCircuit::from_bytes",
+                       "CompressedCircuit::unpack_bounded", "PackedCircuitReader", "CompressedCircuit::validate_indices",
+                       "Composer::from_bytes", "Compiler::compile_with_compressed", "Compiler::compile_with_circuit",
+                       "Prover::to_bytes", "Verifier::to_bytes"])
+    run.bounds.append(f"route identity: {len(table)} circuit shapes (6..{max(s[0] for s in seen)} selector values per "
+                      "circuit symbolic; vector lengths around the MessagePack 15/16 boundary; with/without custom "
+                      "gates; with every dictionary entry and 16 neighbours as selector values; hades dictionary on/off)")
 
 
 def run(run):
     cap = Capacity(run)
     c15_obligations(run, cap)
-    run.outside.append("byte equality of Prover/Verifier::to_bytes between the two routes for arbitrary circuits "
-                       "(concrete pipeline through deflate/MessagePack); index validation and unpack bounds are "
-                       "decided by the Kani harnesses of the thorough tier when they are built")
+    routes(run)
+    run.outside.append("circuits outside the listed shapes; a symbolic selector is a value distinct from every "
+                       "dictionary entry (the dictionary-hit case is covered by the concrete dictionary family); "
+                       "malformed compressed inputs (C17); the deflate and MessagePack libraries are executed "
+                       "concretely on tagged bytes")
